@@ -5,19 +5,18 @@ From DDS Require Import Base.Bytes Base.PyRt L4_Eval.Store Extracted.GenMemStore
 Import ListNotations.
 Local Open Scope string_scope.
 
-Theorem GEN_memory_store_step : forall s o,
-  gen_mem_step (blobs s, paths s) o = ((blobs (fst (spec_step s o)), paths (fst (spec_step s o))), snd (spec_step s o)).
+Theorem GEN_memory_store_step : forall s o, gen_mem_step s o = spec_step s o.
 Proof. exact gen_mem_step_is_spec. Qed.
 Print Assumptions GEN_memory_store_step.
 
 Theorem GEN_memory_store_is_dictionary : forall ops s,
-  run_ops gen_mem_step (blobs s, paths s) ops = run_ops spec_step s ops.
+  run_ops gen_mem_step s ops = run_ops spec_step s ops.
 Proof. exact gen_mem_run_is_spec. Qed.
 Print Assumptions GEN_memory_store_is_dictionary.
 
 (* non-vacuity: a sequence with an overwrite, a commit, a query with a repeated path and a query of a missing path *)
 Example GEN_memory_store_example :
-  run_ops gen_mem_step ([], []) [OPut (bs "k") (BVal (bs "v")); OSync [(bs "/p", bs "k"); (bs "/q", bs "k")]; OFetchPaths [bs "/q"; bs "/p"; bs "/q"];
+  run_ops gen_mem_step sempty [OPut (bs "k") (BVal (bs "v")); OSync [(bs "/p", bs "k"); (bs "/q", bs "k")]; OFetchPaths [bs "/q"; bs "/p"; bs "/q"];
                                 OFetchPaths [bs "/p"; bs "/zz"]; OFetch (bs "k"); OFetch (bs "absent"); OHas (bs "k")]
   = [RUnit; RUnit; RPaths [(bs "/q", bs "k"); (bs "/p", bs "k")]; RErr; RBlob (BVal (bs "v")); RBlob BNone; RBool true].
 Proof. vm_compute. reflexivity. Qed.
